@@ -287,7 +287,8 @@ type c22Run struct {
 	hookFired    bool
 	hookSeq      int
 
-	labels map[string]bool
+	labels    map[string]bool
+	nExcluded int64 // failure points left out while listing those of the current attempt
 }
 
 func (r *c22Run) logf(format string, args ...interface{}) {
@@ -722,6 +723,7 @@ func (r *c22Run) attempt(plan *c22Plan, f int) (*c22Attempt, error) {
 		return nil, err
 	}
 	a := &c22Attempt{chg: chg}
+	r.nExcluded = 0
 	faultsA := r.faultsFor(static)
 	if f < len(faultsA) {
 		a.armed = &faultsA[f]
@@ -877,6 +879,10 @@ func (r *c22Run) runPlan(opIdx int, plan *c22Plan) error {
 			}
 		}
 		if a.armed == nil {
+			if r.nExcluded > 0 {
+				// counted once per change: on its final, fault-free run
+				r.o.Extra["excluded_"+c22FpDisconnectSetup] += r.nExcluded
+			}
 			if failed {
 				r.labels["organic-failure"] = true
 				r.logf("op %d (%s): failed by itself", opIdx, plan.desc)
@@ -919,7 +925,7 @@ const (
 // reproduce a finding listed as known (the search goes on around it).
 func (r *c22Run) excluded(f c22Fault) bool {
 	if f.Mode == "setup" && f.Task.Kind() == "disconnect" && verifkit.IsKnown("C22", c22FpDisconnectSetup) {
-		r.o.Extra["excluded_"+c22FpDisconnectSetup]++
+		r.nExcluded++
 		return true
 	}
 	return false
@@ -1377,17 +1383,17 @@ func c22Gen(t *rapid.T) c22Case {
 		w := rapid.IntRange(0, 99).Draw(t, "kind")
 		op := c22Op{A: rapid.IntRange(0, 11).Draw(t, "a")}
 		switch {
-		case w < 28:
+		case w < 26:
 			op.K = "connect"
 			op.Und = rapid.Bool().Draw(t, "und")
 			op.Bad = rapid.IntRange(0, 19).Draw(t, "bad") == 0
-		case w < 44:
+		case w < 41:
 			op.K = "disconnect"
-		case w < 52:
+		case w < 53:
 			op.K = "forget"
-		case w < 68:
+		case w < 69:
 			op.K = "install"
-		case w < 82:
+		case w < 83:
 			op.K = "remove"
 			op.Con = rapid.Bool().Draw(t, "con")
 		default:
